@@ -7,7 +7,7 @@ from .common import call
 
 PROP = "C14"
 LEVEL = "exploration"
-CASES = {"quick": 500, "thorough": 25000}
+CASES = {"quick": 500, "thorough": 100000}
 SHARDS = {"quick": 8, "thorough": 16}
 ANCHORS = [
     "api.py:write_extended_prefix_map", "api.py:_record_to_dict", "api.py:write_jsonld_context", "api.py:_get_jsonld_context",
